@@ -4,6 +4,7 @@ import (
 	"fmt"
 	"unicode/utf8"
 
+	"github.com/cloudspannerecosystem/memefish/ast"
 	"github.com/cloudspannerecosystem/memefish/token"
 
 	"verif/explore"
@@ -156,6 +157,49 @@ func C15(r *explore.Run) {
 	})
 }
 
+// parsedIdents: the quoting functions are reached through Ident.SQL(); every identifier node of a parsed
+// path - in particular a reserved word accepted unquoted as a field name after "." - must print, on its
+// own, as one identifier token naming it.
+func parsedIdents(r *explore.Run) {
+	forms := []struct{ pre, post string }{{"t.", ""}, {"t.", ".x"}, {"t.x.", ""}, {"t.`", "`"}, {"`", "`"}, {"`", "`.x"}, {"f(t.", ")"}, {"t.", "[0]"}, {"(t).", ""}, {"@p.", ""}}
+	r.Explore(explore.Options{Space: "identifier nodes of parsed paths", MaxDev: -1, SplitLen: 1,
+		Bound: fmt.Sprintf("each of %d reserved words in 3 letter cases x %d path forms through ParseExpr; SQL() of every Ident node", len(lexref.Reserved), len(forms))}, func(c *explore.Ctx) {
+		kw := lexref.Reserved[c.ChooseFree(len(lexref.Reserved))]
+		switch c.ChooseFree(3) {
+		case 1:
+			kw = lower(kw)
+		case 2:
+			kw = kw[:1] + lower(kw[1:])
+		}
+		f := forms[c.ChooseFree(len(forms))]
+		s := f.pre + kw + f.post
+		c.Input(s)
+		res := EntryByName("ParseExpr").Call(s)
+		if res.Panic != nil || res.Err != nil {
+			c.OutcomeStr("rejected")
+			return
+		}
+		n := 0
+		for _, v := range allNodes(res.Roots) {
+			id, ok := v.Node.(*ast.Ident)
+			if !ok || id == nil {
+				continue
+			}
+			n++
+			q, ok := safeSQL(id)
+			if !ok {
+				continue
+			}
+			toks, _, err, pv := fullLex(q)
+			if pv != nil || err != nil || len(toks) != 2 || string(toks[0].Kind) != "<ident>" || toks[0].AsString != id.Name {
+				c.Violation("C15/Ident.SQL/not-that-identifier", s, fmt.Sprintf("ParseExpr(%q): the Ident %q at %s prints as %q, which does not lex back to that one identifier", s, id.Name, v.Path, q))
+			}
+		}
+		c.OutcomeStr(fmt.Sprint("idents", n))
+		c.Nontrivial(explore.Hash(s))
+	})
+}
+
 func lower(s string) string {
 	b := []byte(s)
 	for i, c := range b {
@@ -167,6 +211,6 @@ func lower(s string) string {
 }
 
 func init() {
-	Registry["C15"] = C15
+	Registry["C15"] = func(r *explore.Run) { C15(r); parsedIdents(r) }
 	Single["C15"] = checkQuote
 }
